@@ -120,6 +120,44 @@ def extra(tier, seed, rep):
     longlist.run_exact_lengths(rep, Eval)
 
 
+RAW_NAMES = [b"caf\xe9", b"\xff\xfename", b"na\xc3(me", b"\x80abc", b"sym\xf0\x9f", b"f\xa0\xa1"]
+
+
+def raw_symbol_names(ev, case, text):
+    """ELF symbol names are byte strings and objdump prints them as they are.  One symbol of the object gets a name that is not
+    valid UTF-8, in its label and in every <name+off> annotation, exactly where objdump would print it; labels and annotations
+    contribute nothing, so the stream must be the one of the untouched listing and nothing may fail."""
+    import re as _re
+    import zlib
+
+    if case["src"] != "object" or ev.deviations:
+        return
+    names = sorted(set(_re.findall(r"<(sym[0-9]+)(?:[+-]0x[0-9a-f]+)?>", text)))
+    if not names:
+        return
+    h = zlib.crc32(text.encode())
+    if h % 3:
+        return  # one object listing in three
+    victim = names[h // 3 % len(names)]
+    raw = RAW_NAMES[h // 7 % len(RAW_NAMES)]
+    data = _re.sub(rb"<" + victim.encode() + rb"(?=[+\->])", b"<" + raw, text.encode())
+    if data == text.encode():
+        return
+    sc = jasm_io.scratch()
+    lp = sc.write("c08_rawsym.s", data)
+    rp = sc.write("c08_rawsym_rule.yaml", jasm_io.rule_text(jasm_io.make_doc(["zzzzzzzz"])))
+    want = jasm_io.stream_of(text)
+    got = jasm_io.match_files(rp, lp, mode="str")
+    ev.subcases += 1
+    ev.tags.append("non-utf8-symbol-name")
+    if "inconclusive" in (want[0], got[0]) or want[0] != "ok":
+        return
+    if got[0] != "ok":
+        ev.dev("fails-on-non-utf8-symbol-name", error=list(got[1:]), name=repr(raw), occurrences=data.count(raw))
+    elif got[1] != want[1]:
+        ev.dev("stream-changes-with-symbol-name", name=repr(raw))
+
+
 def _evaluate(case):
     ev = Eval()
     ev.subcases = 0
@@ -137,6 +175,7 @@ def _evaluate(case):
         for d in ev.deviations[before:]:
             d["with_config"] = "valid_addr_range"
         ev.tags.append("also-with-addr-range-observer")
+    raw_symbol_names(ev, case, text)
     f, ninst = features(text, lines)
     ev.tags += sorted(f)
     ev.nontrivial = len(f) >= 3
